@@ -1,6 +1,9 @@
 import RpcVerif.Lemmas.ConnProps
+import RpcVerif.Lemmas.LinkErr
 /-
-  C06 — errors reach exactly the failing call, verbatim, and never poison the link (client half).
+  C06 — errors reach exactly the failing call, verbatim, and never poison the link.
+  The first four theorems are the client half (K); the last three are end to end over the product
+  L = K ‖ lossy FIFO link ‖ S (Model/Link.lean) with no hypothesis on the peer.
 -/
 namespace RpcVerif.Props
 open RpcVerif RpcVerif.K
@@ -37,5 +40,28 @@ theorem C06_encode_failure_no_residue {cfg : Cfg} {tr : List Ev} {s s1 s2 s3 : S
     s3.pending = s.pending ∧ s3.writes = s.writes ∧
       ∃ c', s3.calls k = some c' ∧ c'.errHist = [.encfail] ∧ c'.phase = .sent ∧ c'.seq = some s.seq :=
   encfail_steps s s1 s2 s3 k c (invS_accepts h) hc hp hfe hopen h1 h2 h3
+
+/-- End to end: a server error stored in a call was written by the server for that call's own
+    sequence number and is that call's own (src = k) — every interleaving of both ends, every loss
+    pattern of the link, any number of outstanding calls. -/
+theorem C06_error_end_to_end {cfg : L.Cfg} {tr : List L.Ev} {s : L.State} (h : L.Accepts (L.init cfg) tr s)
+    (k : Nat) (c : Call) (hc : s.k.calls k = some c) (src n : Nat) (he : Err.text src n ∈ c.errHist) :
+    src = k ∧ ∃ q, c.seq = some q ∧ ∃ p, p ∈ s.s.resps ∧ p.seq = q ∧ L.kindOf p = .err n :=
+  L.error_end_to_end h k c hc src n he
+
+/-- Verbatim: a non-empty error text stored in a call is exactly the error the handler of that call's
+    own request returned (the job with the call's sequence number was entered and left with it). -/
+theorem C06_handler_error_reaches_its_call {cfg : L.Cfg} {tr : List L.Ev} {s : L.State} (h : L.Accepts (L.init cfg) tr s)
+    (k : Nat) (c : Call) (hc : s.k.calls k = some c) (src n : Nat) (he : Err.text src n ∈ c.errHist) (hn : 0 < n) :
+    src = k ∧ ∃ q job, c.seq = some q ∧ job ∈ s.s.jobs ∧ job.req.seq = q ∧ job.verdict = some (.err n) ∧ job.ran = true :=
+  L.handler_error_reaches_its_call h k c hc src n he hn
+
+/-- Exactly the failing call: a call whose own request was answered with success never holds a
+    server error text, whatever errors the handlers of other calls returned. -/
+theorem C06_success_never_becomes_an_error {cfg : L.Cfg} {tr : List L.Ev} {s : L.State} (h : L.Accepts (L.init cfg) tr s)
+    (k : Nat) (c : Call) (hc : s.k.calls k = some c) (q : Nat) (hq : c.seq = some q)
+    (p : S.Resp) (hp : p ∈ s.s.resps) (hpq : p.seq = q) (hok : p.err = .none) :
+    ∀ src n, Err.text src n ∉ c.errHist :=
+  L.success_never_becomes_an_error h k c hc q hq p hp hpq hok
 
 end RpcVerif.Props
